@@ -63,7 +63,12 @@ func encMessage(n *Node) []byte {
 		panic("spec: no ofp_type for " + n.Kind)
 	}
 	o := &w{}
-	o.u8(OFVersion)
+	if n.Kind == "msg.hello" && n.Has("version") {
+		// OF 1.3.5 6.3.1: the version field of a hello is the highest version its sender supports
+		o.u8(n.Get("version"))
+	} else {
+		o.u8(OFVersion)
+	}
 	o.u8(uint64(t))
 	o.u16(0) // patched below
 	o.u32(n.Get("xid"))
